@@ -79,7 +79,8 @@ def oracle(ctx, ops, impl, max_index, min_left_min):
                 stats["re-revocations"] += 1
                 if int(op["idx"]) not in revoked.get((node, name), set()):
                     report("C11:revoke-reports-revoked-for-unrevoked-entry", line, i)
-            if line != "revoke revoked" and op.get("idx", "").isdigit() and int(op["idx"]) in revoked.get((node, name), set()) and line != "revoke ok":
+            if (line not in ("revoke revoked", "revoke ok") and op.get("purpose") == "revocation" and op.get("idx", "").isdigit()
+                    and int(op["idx"]) in revoked.get((node, name), set())):
                 report("C11:revoke-not-idempotent", f"second revoke of {name}#{op['idx']} answered {line}", i)
         elif kind == "serve" and line.startswith("serve issuer="):
             stats["served"] += 1
